@@ -8,6 +8,8 @@ is never touched again and only what went through the medium survives.
 """
 import copy
 import pickle
+import shutil
+import tempfile
 
 import yaml
 
@@ -56,15 +58,49 @@ def make_custom_loader(plumpy):
     return CustomLoader()
 
 
+class PersisterHandle:
+    """A checkpoint that lives in one of plumpy's bundled persisters (written by save_checkpoint, read by load_checkpoint)."""
+
+    def __init__(self, persister, pid, directory=None):
+        self.persister, self.pid, self.directory = persister, pid, directory
+
+    def fetch(self):
+        try:
+            return self.persister.load_checkpoint(self.pid)
+        finally:
+            if self.directory is not None:
+                shutil.rmtree(self.directory, ignore_errors=True)
+
+
+PERSISTER_MEDIA = ('persister:memory', 'persister:pickle')
+
+
 def save(proc, medium, loader=None):
     plumpy = seams.install()
+    if medium == 'persister:memory':
+        persister = plumpy.InMemoryPersister(loader=loader)
+        persister.save_checkpoint(proc)
+        return PersisterHandle(persister, proc.pid)
+    if medium == 'persister:pickle':
+        directory = tempfile.mkdtemp(prefix='simkit-restart-')
+        try:
+            persister = plumpy.PicklePersister(directory)
+            persister.save_checkpoint(proc)
+        except BaseException:
+            shutil.rmtree(directory, ignore_errors=True)
+            raise
+        return PersisterHandle(persister, proc.pid, directory)
     context = plumpy.LoadSaveContext(loader=loader) if loader is not None else None
     bundle = plumpy.Bundle(proc, context)
+    if medium == 'bundle':
+        return bundle  # the Bundle object itself, kept in memory as it is
     return through_medium(bundle, medium)
 
 
 def load(bundle, loop, loader=None):
     plumpy = seams.install()
+    if isinstance(bundle, PersisterHandle):
+        bundle = bundle.fetch()
     context = plumpy.LoadSaveContext(loop=loop, loader=loader) if loader is not None else plumpy.LoadSaveContext(loop=loop)
     return bundle.unbundle(context)
 
@@ -79,7 +115,7 @@ class RestartRun:
     """
 
     def __init__(self, program, crashes=None, media=None, loader_mode='default', build=None, max_rounds=200, pauses=None,
-                 crash_paused=None, pause_in_step=None, crash_on_paused=None, crash_on_played=None):
+                 crash_paused=None, pause_in_step=None, crash_on_paused=None, crash_on_played=None, lag=None):
         self.plumpy = seams.install()
         self.program = program
         self.crashes = {int(k): v for k, v in (crashes or {}).items()}
@@ -112,6 +148,10 @@ class RestartRun:
         self.pause_in_step = set(int(b) for b in (pause_in_step or []))
         self.crash_on_paused = set(int(b) for b in (crash_on_paused or []))
         self.crash_on_played = set(int(b) for b in (crash_on_played or []))
+        # boundary -> number of further boundaries the instance runs on after the checkpoint was written before it is
+        # abandoned (without another checkpoint): that progress is lost, the checkpoint must not have noticed it
+        self.lag = {int(k): int(v) for k, v in (lag or {}).items()}
+        self.lagging = None
         self.played_ordinal = 0
         self.step_ordinal = 0
         self.paused_ordinal = 0
@@ -131,6 +171,10 @@ class RestartRun:
         if state not in ('running', 'waiting'):
             return
         self.boundary += 1
+        if self.lagging is not None:
+            self.lagging['remaining'] -= 1
+            if self.lagging['remaining'] <= 0:
+                self._abandon_lagging()
         if self.boundary in self.pauses:
             self.pauses.discard(self.boundary)
             proc.pause(f'paused at boundary {self.boundary}')
@@ -150,8 +194,29 @@ class RestartRun:
             self.world.rec('unsavable', self.boundary, type(exc).__name__)
             return
         self.crash_states.append(proc.state.value)
+        if self.lagging is not None and self.boundary not in self.lag:
+            self.lagging = None  # a newer checkpoint supersedes the one the instance was running away from
+        lag = self.lag.pop(self.boundary, 0)
+        if lag > 0 and self.lagging is None:
+            # the checkpoint is written, the instance runs on for a while
+            bundle, self.pending_bundle = self.pending_bundle, None
+            self.world.rec('checkpoint', self.boundary, proc.state.value, self._medium(), lag)
+            self.lagging = {'bundle': bundle, 'events': len(self.world.events), 'boundary': self.boundary, 'remaining': lag,
+                            'errors': len(self.world.program_errors)}
+            return
         self.world.rec('crash', self.boundary, proc.state.value, self._medium())
         raise SimCrash()
+
+    def _abandon_lagging(self, raise_crash=True):
+        """The instance dies now; what survives is the checkpoint written `lag` boundaries ago."""
+        lagging, self.lagging = self.lagging, None
+        del self.world.events[lagging['events']:]  # what the lost instance did since is not part of the history
+        del self.world.program_errors[lagging['errors']:]
+        self.pending_bundle = lagging['bundle']
+        self.boundary = lagging['boundary']
+        self.world.rec('crash', self.boundary, 'lagged', self._medium())
+        if raise_crash:
+            raise SimCrash()
 
     def _in_user_code(self, proc, site, count):
         if not site.startswith('step:') or getattr(proc, '_sim_label', None) != 'p':
@@ -252,6 +317,8 @@ class RestartRun:
                         self.runaway = exc
                         self.world.rec('runaway')
                         break
+                    if self.pending_bundle is None and self.lagging is not None and (proc.has_terminated() or task.done()):
+                        self._abandon_lagging(raise_crash=False)  # it got as far as terminating before it was lost
                     if self.pending_bundle is not None or proc.has_terminated():
                         if self.pending_bundle is None and proc.paused:
                             # a pause requested during the last step is carried out with the transition into the terminal
